@@ -80,7 +80,9 @@ function buildImports(spec, log, share) {
     const mod = hexToStr(im.module), field = hexToStr(im.field);
     if (!Object.prototype.hasOwnProperty.call(imports, mod)) imports[mod] = {};
     let v;
-    if (share && im.kind !== 'func') {          // `family`: a further instance created with the SAME import objects as its parent
+    if (share && im.kind !== 'func' && im.kind !== 'table') {   // `family`: a further instance given the memories and globals of its parent
+      // (tables are per instance: an entry is a closure over the instance that defined it; w2c2's entries are C function pointers called
+      //  with the CALLER's instance, so a table shared between instances behaves differently by design)
       v = share.imports[mod][field];
       if (im.kind === 'memory' && created.memory === null) created.memory = v;
     } else if (im.kind === 'func') {
@@ -167,10 +169,13 @@ function family(req, wasm) {
   try { module = new WebAssembly.Module(wasm); }
   catch (e) { for (const o of outs) o.instantiate = ['invalid', String(e.message)]; return { instances: outs }; }
   const insts = plan.map(() => null), built = plan.map(() => null), tramp = plan.map(() => new Map());
+  // host calls of the whole family in the order they happen.  (A function a child's element segments put into a table it shares with
+  // its parent is the CHILD's closure: per-instance logs attribute by closure, not by caller; the family log does not attribute.)
+  const famlog = [];
   function create(k) {
     const p = plan[k];
     if (p.kind === 'child' && !insts[p.parent]) { outs[k].instantiate = ['skip']; return; }
-    built[k] = buildImports(req.imports, outs[k].host_log, p.kind === 'child' ? built[p.parent] : null);
+    built[k] = buildImports(req.imports, { push: (e) => { outs[k].host_log.push(e); famlog.push(e); } }, p.kind === 'child' ? built[p.parent] : null);
     try {
       // p.wasm: this instance is made from a variant of the module (e.g. without the data segments a child does not apply again)
       insts[k] = new WebAssembly.Instance(p.wasm ? new WebAssembly.Module(hexToBuf(p.wasm)) : module, built[k].imports);
@@ -211,7 +216,7 @@ function family(req, wasm) {
       outs[k].mem = { sha256: hash.digest('hex'), pages: bytes.length / 65536 };
     }
   });
-  return { instances: outs };
+  return { instances: outs, family_log: famlog };
 }
 
 function handle(req) {
